@@ -184,7 +184,7 @@ func validateAgainstModel(ctx *core.Ctx, units []*Unit, results map[*Unit]*unitR
 			if ob.Err != (rj.status == "err") {
 				reason = "error-differs-from-model"
 			}
-			o := u.run(Plan{"cap", ob.B})
+			o := u.run(Plan{Kind: "cap", K: ob.B})
 			rc := u.replay(o)
 			rc.Expected = fmt.Sprintf("model (SoyExec under plan cap %d): status=%s accepted=%q", ob.B, rj.status, rj.out)
 			ctx.Violation(core.Sig{Family: "model-trace", Feature: ob.Site + "-" + reason},
